@@ -192,6 +192,42 @@ class _Chase(ast.NodeTransformer):
         return node
 
 
+class _Drop(ast.NodeTransformer):
+    """The defining statement of an inlined alias is dead in the canonical form: `x = <pure>` -> pass."""
+
+    def __init__(self, defs):
+        self.defs = defs
+        self.top = True
+
+    def _nested(self, node):
+        if self.top:
+            self.top = False
+            return self.generic_visit(node)
+        return node
+
+    visit_FunctionDef = visit_AsyncFunctionDef = _nested
+
+    def visit_Lambda(self, node):
+        return node
+
+    visit_ClassDef = visit_Lambda
+
+    def visit_Assign(self, node):
+        if len(node.targets) == 1:
+            t = node.targets[0]
+            if isinstance(t, ast.Name) and t.id in self.defs:
+                return ast.copy_location(ast.Pass(), node)
+            if isinstance(t, (ast.Tuple, ast.List)) and isinstance(node.value, (ast.Tuple, ast.List)) \
+                    and len(t.elts) == len(node.value.elts) and all(isinstance(a, ast.Name) for a in t.elts):
+                keep = [(a, b) for a, b in zip(t.elts, node.value.elts) if a.id not in self.defs]
+                if not keep:
+                    return ast.copy_location(ast.Pass(), node)
+                if len(keep) < len(t.elts):
+                    node.targets = [ast.Tuple(elts=[a for a, _ in keep], ctx=ast.Store())]
+                    node.value = ast.Tuple(elts=[b for _, b in keep], ctx=ast.Load())
+        return node
+
+
 def canonicalize(fn):
     """Inline pure alias locals in place (fn is a FunctionDef).  Returns the alias map used."""
     defs = alias_defs(fn)
@@ -202,5 +238,6 @@ def canonicalize(fn):
     for st in fn.body:
         new_body.append(tr.visit(st))
     fn.body = new_body
+    _Drop(defs).visit(fn)
     ast.fix_missing_locations(fn)
     return defs
